@@ -392,10 +392,11 @@ def block_diagonalize(
             if scalar_input and not isinstance(result, sympy.MatrixBase):
                 result = sympy.Matrix([[result]])
 
-            if isinstance(result, sympy.Matrix):
+            if isinstance(result, sympy.MatrixBase):
                 return result.applyfunc(
                     lambda x: NumberOrderedForm.from_expr(x, operators)
                 )
+            raise TypeError(f"Unsupported Hamiltonian term type: {type(result)}.")
 
         H = BlockSeries(
             eval=H_eval,
